@@ -42,6 +42,9 @@ type Entry struct {
 	// Synthetic: a host program of this harness, not a shipped workload. Only the placement lattice (C18a)
 	// runs it, in timing mode also in the quick tier.
 	Synthetic bool `json:"synthetic"`
+	// EmuOnly: too long for a cycle-level run (the xor training workload: 50 epochs of many small kernels); it is
+	// in C01's emulation lattice only, not in the timing-vs-emulation (C02), placement (C18) or repeat (C05) lattices
+	EmuOnly bool `json:"emu_only,omitempty"`
 }
 
 // Matrix is the parsed c01_matrix.json.
